@@ -9,6 +9,8 @@ RUN = os.path.join(VERIF, "run")
 MODEL_BIN = os.path.join(LEAN, ".lake", "build", "bin", "tulisp_model")
 
 ALLOWED_AXIOMS = {"propext", "Classical.choice", "Quot.sound"}
+MAX_DEATHS = 6            # after this many crashes / hangs of the implementation in one run the campaign stops early
+STALL_DEFAULT = "60"      # seconds without a new answer after which the implementation counts as hung
 
 def log(*a):
     print(*a, file=sys.stderr, flush=True)
@@ -138,12 +140,30 @@ def run_lines(binary, lines, env=None, timeout=900, model=False):
     outp = os.path.join(RUN, "answers-%d-%d.txt" % (os.getpid(), int(time.time() * 1e6) % 10**9))
     e["HARNESS_OUT"] = outp
     rc = None
-    try:
-        p = subprocess.run([binary], input=data, text=True, stdout=subprocess.DEVNULL,
-                           stderr=subprocess.DEVNULL, env=e, timeout=timeout)
-        rc = p.returncode
-    except subprocess.TimeoutExpired:
-        rc = "timeout"
+    inp = outp + ".in"
+    with open(inp, "w", encoding="utf-8") as f:
+        f.write(data)
+    stall = float(e.get("VERIF_STALL", STALL_DEFAULT))
+    with open(inp, "rb") as fin:
+        p = subprocess.Popen([binary], stdin=fin, stdout=subprocess.DEVNULL, stderr=subprocess.DEVNULL, env=e)
+        t0 = time.time(); last_size = -1; last_change = t0
+        while True:
+            try:
+                rc = p.wait(timeout=0.2)
+                break
+            except subprocess.TimeoutExpired:
+                pass
+            now = time.time()
+            try: size = os.path.getsize(outp)
+            except OSError: size = 0
+            if size != last_size:
+                last_size = size; last_change = now
+            # a request that produces no answer for `stall` seconds counts as hung
+            if now - t0 > timeout or now - last_change > stall:
+                p.kill(); p.wait(); rc = "timeout"
+                break
+    try: os.remove(inp)
+    except OSError: pass
     try:
         raw = open(outp, encoding="utf-8", errors="replace").read()
     except FileNotFoundError:
@@ -168,7 +188,13 @@ def run_resilient(binary, lines, env=None, timeout=900, model=False, died_marker
     pos = 0
     e2 = dict(env or {})
     exact = bool(model) or ("HARNESS_FLUSH" in e2)
+    deaths = 0
     while pos < len(lines):
+        if deaths >= MAX_DEATHS:
+            # enough evidence: the remaining cases are not run (their answers stay None and are not compared)
+            for k in range(pos, len(lines)):
+                answers[k] = "UNRUN"
+            break
         out, rc = run_lines(binary, lines[pos:], env=e2, timeout=timeout, model=model)
         for k, a in enumerate(out):
             if pos + k < len(lines):
@@ -184,6 +210,7 @@ def run_resilient(binary, lines, env=None, timeout=900, model=False, died_marker
             continue
         # the process stopped while answering line `done`
         marker = "TIMEOUT" if rc == "timeout" else died_marker
+        deaths += 1
         nxt = next((s for s in starts if s > done), len(lines))
         for k in range(done, nxt):
             answers[k] = marker
@@ -231,6 +258,8 @@ def compare(lines, impl, model, strict_err=False, ignore=None, normalize=None):
                 oc.skipped += 1
                 if b.startswith("SKIP float-fmt"):
                     continue        # only the rendering of this answer was given up; the state is intact
+                break
+            if a == "UNRUN":
                 break
             if a is not None and (a.startswith("PANIC") or a in ("ABORT", "TIMEOUT")):
                 oc.impl_panics.append(([lines[j] for j in idxs], i - idxs[0], a))
